@@ -62,7 +62,8 @@ Inductive retval :=
 | RUnit
 | RNode (n : N)
 | RGuard (p : N) (d : option slot)    (* pointer and the debt slot it still owes, if any *)
-| ROwned (p : N).
+| ROwned (p : N)
+| RPanic.                             (* the user's closure panicked; the harness caught the unwind *)
 
 Inductive panic_site :=
 | PExpectNode          (* "LocalNode::with ensures it is set" *)
